@@ -33,6 +33,11 @@ def feasible(state, timeout_ms=300):
     """cheap pruning of infeasible paths; `unknown` counts as feasible"""
     s = z3.Solver()
     s.set('timeout', timeout_ms)
+    # E-matching only: with quantified facts in the path condition the default configuration
+    # spends the whole timeout in model-based instantiation and answers `unknown` anyway
+    # (measured: 0.3 s per branch, 25 s for one slice); `unknown` counts as feasible
+    s.set('auto_config', False)
+    s.set('mbqi', False)
     for f in state.pc:
         s.add(f)
     return s.check() != z3.unsat
@@ -214,7 +219,7 @@ class Executor:
             if m is None:
                 raise Unsupported(f"statement {type(node).__name__} at line {node.lineno}")
             if ctx.lenient and ctx.contract.tracked and isinstance(
-                    node, (ast.Assign, ast.AugAssign, ast.Expr, ast.Delete, ast.AnnAssign)) \
+                    node, (ast.Assign, ast.AugAssign, ast.Expr, ast.Delete, ast.AnnAssign, ast.Assert)) \
                     and not self.mentions_tracked(node):
                 outs = self.abstract_stmt(node, state)
             else:
